@@ -74,6 +74,11 @@ CLAIMED = {
          "at first use) and compares the canonical text, the re-parsed result and the bytes of data written under load_schema's result, the same for "
          "load_schema_ordered, and the type named by the error for a missing file.",
          "TLA+ spec (AvroSchema!ParseRepo, AvroCanon) + TLC trace validation", "3/C19"),
+ "C12": ("V: each generated schema is used raw, parsed and piecewise-parsed (a random non-empty subset of its named types parsed separately into a "
+         "shared dictionary and referred to by name) for schemaless/container/JSON write and read, validate, canonical form and generate_many under a "
+         "fixed seed; TLC compares every result with the spec value of the monolithic schema (Encode, Norm, JsonEnc, CanonText) and parses the "
+         "container header on its own (AvroFile!ParseFile).",
+         "TLA+ spec (AvroSchema, AvroBinary, AvroJson, AvroCanon, AvroFile) + TLC trace validation", "3/C12"),
 }
 checks = []
 for p in props:
